@@ -568,7 +568,13 @@ def _r345(repo, L, ia, find: Func):
             rng_txt = "range(ovr-1, -1, -1)"
         else:
             direction = "right"
-            ok_rng = lo == ovr + 1 and step == Lin.const(1) and (hi == Lin.atom("len(idx)"))
+            def is_len_of_index(h):
+                if h == Lin.atom("len(idx)"):
+                    return True
+                ts = dict(h.t)
+                return h.c == 0 and len(ts) == 1 and all(isinstance(a, str) and a.startswith("len(") and ("index" in a or "idx" in a) and k_ == 1 for a, k_ in ts.items())
+
+            ok_rng = lo == ovr + 1 and step == Lin.const(1) and is_len_of_index(hi)
             rng_txt = "range(ovr+1, len(idx))"
         seen_dirs.add(direction)
         L.check(ok_rng, "R5", f"{find.short}:extend-{direction}:range", f"visits every row {direction} of the hit: {rng_txt}", f"{direction} extension iterates range({lo}, {hi}, {step}), expected {rng_txt}", find.loc(fl))
